@@ -201,3 +201,27 @@ def known_partial_of_partial(s: str) -> bool:
     post: _
     """
     return ev(T['partial_nested'], s=s) == ['a' + s]
+
+
+# --- added after round-2 seeded changes: the collation argument of fn:sort is honoured with and without a key function --------------
+
+CI = 'http://www.w3.org/2005/xpath-functions/collation/html-ascii-case-insensitive'
+CP = 'http://www.w3.org/2005/xpath-functions/collation/codepoint'
+T.update(parse_all({'sort_coll': 'sort(($a, $b, $c), $coll)', 'sort_coll_key': 'sort(($a, $b, $c), $coll, function($v) { $v })',
+                    'sort_coll_key2': 'sort(($a, $b, $c), $coll, function($v) { concat($v, "x") })'}))
+LET = ('a', 'A', 'b', 'B')
+
+
+@ob(budget=120, bound='three one-letter strings from {a, A, b, B} (chosen by the solver), collation: code point or html-ascii-case-insensitive: sort is a stable ordered permutation under the collation, with and without a key function',
+    funcs=[F30 + ':sort', 'elementpath/compare.py:get_key_function', 'elementpath/collations.py'])
+def sort_honours_collation(i: int, j: int, k: int, ci: bool) -> bool:
+    """
+    pre: 0 <= i <= 3 and 0 <= j <= 3 and 0 <= k <= 3
+    post: _
+    """
+    vals = [LET[i], LET[j], LET[k]]
+    coll = CI if ci else CP
+    want = sorted(vals, key=(lambda v: v.lower()) if ci else (lambda v: v))
+    return ev(T['sort_coll'], a=vals[0], b=vals[1], c=vals[2], coll=coll) == want \
+        and ev(T['sort_coll_key'], a=vals[0], b=vals[1], c=vals[2], coll=coll) == want \
+        and ev(T['sort_coll_key2'], a=vals[0], b=vals[1], c=vals[2], coll=coll) == want
